@@ -40,7 +40,7 @@ const INDEX: usize = PAGE;
 fn mk_block(fail_read_at: Option<usize>) -> (Arc<MemDev<NP>>, Block) {
     let dev = Arc::new(MemDev::<NP>::zeroed());
     let part: Arc<dyn Partition> = Arc::new(MemPartition { id: 0, base_page: 0, size: NP * PAGE });
-    let io: Arc<dyn IoEngine> = Arc::new(MemIo::<NP> { dev: dev.clone(), base_pages: [0; 4], fail_read_at, reads: std::cell::Cell::new(0) });
+    let io: Arc<dyn IoEngine> = Arc::new(MemIo::<NP, true> { dev: dev.clone(), base_pages: [0; 4], fail_read_at, reads: std::cell::Cell::new(0) });
     (dev, Block::verif_new(7, part, io))
 }
 
